@@ -107,6 +107,17 @@ func (t jtx) render(order int, dupKey string) string {
 	if dupKey == "input.extra" {
 		input += `,"extra":1`
 	}
+	if dupKey == "input.missing-type" && len(t.amount) < 20 {
+		// no "type" member, but the other members add up to the length the reader expects
+		// (it accounts for the type with the 18-character error text of the invalid ticker)
+		input = fmt.Sprintf(`"address":"%s","amount":%s,"typ":"%s"`, t.addr, t.amount, strings.Repeat("x", 20-len(t.amount)))
+	}
+	if dupKey == "input.missing-type-dup" && len(t.amount) < 9 {
+		pad := 18 - 2*len(t.amount) + 1
+		if pad >= 0 {
+			input = fmt.Sprintf(`"address":"%s","amount":%s,"amount":%s,"t":"%s"`, t.addr, t.amount, t.amount, strings.Repeat("y", pad))
+		}
+	}
 	body := `"input":{` + input + `}`
 	if t.conv != "" {
 		body += `,"conversion":"` + t.conv + `"`
@@ -147,7 +158,7 @@ func (t jtx) render(order int, dupKey string) string {
 	return "{" + body + "}"
 }
 
-var dupKinds = []string{"", "", "", "", "input.amount", "input.address", "input.type", "input.extra", "transfer.amount", "transfer.extra", "tx.input", "tx.conversion", "tx.transfers", "tx.extra", "tx.both",
+var dupKinds = []string{"", "", "", "", "input.missing-type", "input.missing-type-dup", "input.amount", "input.address", "input.type", "input.extra", "transfer.amount", "transfer.extra", "tx.input", "tx.conversion", "tx.transfers", "tx.extra", "tx.both",
 	"batch.version", "batch.transactions", "batch.extra", "batch.metadata", "case.version", "case.transactions", "case.input", "case.amount", "unicode.key", "neither", "two-inputs", "unknown-ticker", "unknown-conv", "ws"}
 
 func (g *c20gen) batch() (string, string) {
